@@ -299,10 +299,29 @@ def range_bounds(body, op):
 import re as _re
 
 
-def slice_const_width(body, op, depth=0):
+def slice_const_width(body, op, depth=0, at=None):
     """byte width of a slice operand when it is `x[a..b]` / `x[..b]` with literal bounds - in this fn, or, for a bare parameter of a
-    private fn, at every one of its call sites (all must agree).  None if unknown."""
-    t = trace(body, op)
+    private fn, at every one of its call sites (all must agree); or `x.get(a..a + n)` (through `?` / a match on Some) where the
+    use site `at` is control-dependent on a match of that very n against a literal.  None if unknown."""
+    t = trace(body, op, extra_transparent=("std::ops::Try::branch",))
+    real = [f for f in t.fields if not f.startswith(("Option::", "ControlFlow::", "Result::"))]
+    if t.kind == "call" and not real and (t.root[1].resolved or "").endswith("slice::get") and len(t.root[1].args) == 2 and at is not None:
+        rb = range_bounds(body, t.root[1].args[1])
+        if rb and {name for name, o, agg in rb} == {"start", "end"}:
+            d = {name: lin(body, o) for name, o, agg in rb}
+            if d["start"] is not None and d["end"] is not None:
+                diff = {k_: d["end"][0].get(k_, 0) - d["start"][0].get(k_, 0) for k_ in set(d["end"][0]) | set(d["start"][0])}
+                diff = {k_: v for k_, v in diff.items() if v}
+                cst = d["end"][1] - d["start"][1]
+                if len(diff) == 1 and list(diff.values()) == [1] and cst == 0:
+                    atom = list(diff)[0]
+                    # the width is one unsigned value n: is `at` reached only after n was matched against a literal?
+                    for term, tgt, lab in controlling_edges(body, at.bb):
+                        if term.kind == "switch" and lab[0] == "val" and term.op.place is not None:
+                            ta = lin(body, term.op)
+                            if ta is not None and ta[0] == {atom: 1} and ta[1] == 0:
+                                return lab[1]
+        return None
     if t.fields:
         return None
     if t.kind == "call" and (t.root[1].callee or "") in INDEX_CALLS and len(t.root[1].args) >= 2:
@@ -368,6 +387,8 @@ def lin(body, op, depth=0):
         return ({("local", t.root[1]): 1}, 0)
     if t.kind == "param":
         return ({("param", t.root[1]): 1}, 0)
+    if t.kind in ("call", "rv") and depth < 8:
+        return ({("val", t.key()): 1}, 0)  # an opaque unsigned value: the same computation is the same atom
     return None
 
 
@@ -666,7 +687,7 @@ def try_discharge(body, site, bounds):
             if isinstance(st, Term) and st.kind == "call" and (st.callee or "").endswith("TryInto::try_into") and len(st.j.get("targs", [])) == 2:
                 m = _re.match(r"\[u8; (\d+)\]$", st.j["targs"][1])
                 if m and st.args:
-                    w = slice_const_width(body, st.args[0])
+                    w = slice_const_width(body, st.args[0], at=it)
                     if w is not None and w == int(m.group(1)):
                         return "try_into::<[u8; %d]> of a subslice whose constant range is %d bytes wide" % (w, w)
         if src.kind == "call" and (src.root[1].resolved or "").endswith("NonZero::new"):
